@@ -74,7 +74,17 @@ class PropertyGroup(ABC):
 
         map_attributes(self, **kwargs)
 
-        self.parent.workspace.register(self)
+        try:
+            self.parent.workspace.register(self)
+        except RuntimeError:
+            # a group refused for its identifier is not left attached to the object
+            for attached in (
+                getattr(parent, "_children", None),
+                getattr(parent, "_property_groups", None),
+            ):
+                if attached is not None and self in attached:
+                    attached.remove(self)
+            raise
 
     def add_properties(self, data: Data | list[Data | uuid.UUID] | uuid.UUID):
         """
